@@ -491,7 +491,7 @@ def mask_span(m):
 # ---------------------------------------------------------------------------
 # solver stack for feasibility pruning (incremental, mirrors the path condition)
 # ---------------------------------------------------------------------------
-RLIMIT_PRUNE = 600000
+RLIMIT_PRUNE = 2000000
 
 
 class _Inc:
@@ -502,7 +502,7 @@ class _Inc:
         # a deterministic resource limit decides (the same answer whatever the load of the machine: path enumeration by
         # re-execution needs reproducible feasibility answers); the wall-clock limit is only a backstop
         self.s.set('rlimit', RLIMIT_PRUNE)
-        self.s.set('timeout', max(timeout_ms, 5000))
+        self.s.set('timeout', 120000)
         self.stack = []
         self.keep = []
 
